@@ -136,8 +136,8 @@ Qed.
 (* The property as a statement about what was observed of one connection. *)
 Definition C05_good (l : listener) (t : tunnel) (reqs : list inner) (os : list obs) : Prop :=
   match l, t with
-  | LTls, NoTunnel => inner_good true 1 false reqs os
-  | LTls, _ | _, NoTunnel => True
+  | LTls, NoTunnel | LShapedTls, NoTunnel => inner_good true 1 false reqs os
+  | LTls, _ | LShapedTls, _ | _, NoTunnel => True
   | _, _ =>
       match os with
       | Seen 0 f0 :: os' =>
@@ -194,7 +194,11 @@ Proof.
 Qed.
 
 Definition valid (l : listener) (t : tunnel) : bool :=
-  match l, t with LTls, NoTunnel => true | LTls, _ | _, NoTunnel => false | _, _ => true end.
+  match l, t with
+  | LTls, NoTunnel | LShapedTls, NoTunnel => true
+  | LTls, _ | LShapedTls, _ | _, NoTunnel => false
+  | _, _ => true
+  end.
 
 (* guard: every request names a host (Host header or absolute target) *)
 Theorem fixed_good l t reqs :
@@ -221,6 +225,8 @@ Proof.
   - (* LShaped, TunPlain *)
     cbn. repeat split. apply loop_plain_good; auto.
   - (* LTls, NoTunnel *)
+    apply loop_tls_good; auto.
+  - (* LShapedTls, NoTunnel *)
     apply loop_tls_good; auto.
 Qed.
 
@@ -276,7 +282,7 @@ Qed.
    all requests on a transparent TLS listener. *)
 Definition decrypted (l : listener) (t : tunnel) : bool :=
   match l, t with
-  | LPlain, TunTls | LShaped, TunTls | LTls, NoTunnel => true
+  | LPlain, TunTls | LShaped, TunTls | LTls, NoTunnel | LShapedTls, NoTunnel => true
   | _, _ => false
   end.
 
@@ -318,6 +324,8 @@ Proof.
       eapply tunnel_fields; eauto; reflexivity.
   - destruct (loop_tls_fields reqs (mkSess false Tls) 1 Tls j f eq_refl Hin) as [Hf [_ Hq]].
     split; assumption.
+  - destruct (loop_tls_fields reqs (mkSess false ShapedTls) 1 ShapedTls j f eq_refl Hin) as [Hf [_ Hq]].
+    split; assumption.
 Qed.
 
 (* ---------------- plain HTTP inside the tunnel ---------------- *)
@@ -351,10 +359,10 @@ Proof.
 Qed.
 
 Theorem plain_tunnel_requests : forall fx l reqs j f,
-  l <> LTls -> 1 <= j -> In (Seen j f) (run fx l TunPlain reqs) -> plain_fields f.
+  1 <= j -> In (Seen j f) (run fx l TunPlain reqs) -> plain_fields f.
 Proof.
-  intros fx l reqs j f Hl Hj Hin.
-  destruct l; [| |congruence]; unfold run in Hin; cbn [accepted handle_connect is_tls secure sconn] in Hin.
+  intros fx l reqs j f Hj Hin.
+  destruct l; [| |destruct Hin|destruct Hin]; unfold run in Hin; cbn [accepted handle_connect is_tls secure sconn] in Hin.
   - destruct Hin as [E|Hin]; [inversion E; subst; lia|].
     exact (loop_plain_fields reqs (mkSess false Raw) 1 Raw fx j f eq_refl eq_refl eq_refl Hin).
   - destruct Hin as [E|Hin]; [inversion E; subst; lia|].
